@@ -45,6 +45,25 @@ def handleKeys (toks : List String) (tbl : Table) : Option String :=
     match generateKeySet genTables k a p c with
     | none => some "ok unmodelled"
     | some r => some (showRes (r.map fun l => if l.isEmpty then "-" else String.intercalate "," (l.map showGenCall)))
+  | ["key.export", "rsa-pub", n, e] => do
+    some (showRes ((exportRsaPublic { n := ← n.toNat?, e := ← e.toNat? }).map fun d => showJVal (.obj d)))
+  | ["key.export", "rsa-priv", n, e, d, p, q, dp, dq, qi] => do
+    let k : RsaPriv := { pub := { n := ← n.toNat?, e := ← e.toNat? }, d := ← d.toNat?, p := ← p.toNat?, q := ← q.toNat?,
+                         dp := ← dp.toNat?, dq := ← dq.toNat?, qi := ← qi.toNat? }
+    some (showRes ((exportRsaPrivate k).map fun d => showJVal (.obj d)))
+  | ["key.export", "ec-pub", crv, bits, x, y] => do
+    some (showRes ((exportEcPublic { crv := ← hexToStr crv, x := ← x.toNat?, y := ← y.toNat? } (← bits.toNat?)).map fun d => showJVal (.obj d)))
+  | ["key.export", "ec-priv", crv, bits, x, y, d] => do
+    let k : EcPriv := { pub := { crv := ← hexToStr crv, x := ← x.toNat?, y := ← y.toNat? }, d := ← d.toNat? }
+    some (showRes ((exportEcPrivate k (← bits.toNat?)).map fun d => showJVal (.obj d)))
+  | ["key.import", kind, dict] => do
+    let d ← match ← readJVal dict with | .obj kvs => some kvs | _ => none
+    match kind with
+    | "rsa-pub" => some (showRes ((importRsaPublic d).map fun k => s!"{k.n},{k.e}"))
+    | "rsa-priv" => some (showRes ((importRsaPrivateFull d).map fun k => s!"{k.pub.n},{k.pub.e},{k.d},{k.p},{k.q},{k.dp},{k.dq},{k.qi}"))
+    | "ec-pub" => some (showRes ((importEcPublic ecCurves d).map fun k => s!"{strToHex k.crv},{k.x},{k.y}"))
+    | "ec-priv" => some (showRes ((importEcPrivate ecCurves d).map fun k => s!"{strToHex k.pub.crv},{k.pub.x},{k.pub.y},{k.d}"))
+    | _ => none
   | ["key.asdict", key, priv, params] => do
     let k ← readKey key
     let p ← readPriv priv
